@@ -19,7 +19,7 @@ df = import_df()
 UN_IDS = {"absolute": 0, "conjugate": 3, "sin": 10, "cos": 11, "exp": 12, "tanh": 13, "arctan": 14,
           "square": 15, "negative": 16, "sign": 17, "floor": 18}
 UN_REAL_ONLY = {"sign", "floor"}
-BIN_IDS = {"arctan2": 10, "maximum": 11, "minimum": 12, "hypot": 13, "copysign": 14}
+BIN_IDS = {"arctan2": 10, "maximum": 11, "minimum": 12, "hypot": 13}
 BIN_ALG = {"add": "Add", "subtract": "Sub", "multiply": "Mul", "divide": "Div", "power": "Pow"}
 U_ABS, U_PHASE, U_SQRT, U_ARCCOS, B_POW = 0, 4, 5, 6, 0
 ALG = {"add": "Add", "sub": "Sub", "mul": "Mul", "div": "Div", "pow": "Pow"}
@@ -338,8 +338,6 @@ def ev_ref(e, ctx):
             rex = np.empty(xa_.shape, dtype=object)
             for idx in np.ndindex(*xa_.shape[:-1]):
                 rex[idx] = c3(xa_[idx], xb_[idx])
-            if e[3][0] != "leaf" and is_const(e[3]):
-                r, rex = np.cross(fb_, fa_) * -1, omap(lambda v: v, rex)   # -(self x other), same value
         elif op == "angle":
             fb_ = np.broadcast_to(fb, fa.shape) if fb.ndim < fa.ndim or fb.shape != fa.shape else fb
             xb_ = np.broadcast_to(xb, xa.shape) if xb.shape != xa.shape else xb
@@ -541,23 +539,19 @@ class Gen:
         return ["arr", k, [rnum(rng, self.regime, cplx=cplx and rng.random() < 0.3)
                            for _ in range(self.ncell * k)]]
 
-    def operand(self, nv, depth, real_only, allow_const=True):
-        """second operand compatible with a field of nv components: (expr, nv_of_operand)"""
+    def operand(self, k, self_nv, depth, real_only, allow_num=True):
+        """an operand with exactly k components that a field of self_nv components accepts"""
         rng = self.rng
         r = rng.random()
         cplx = self.allow_cplx and not real_only
-        if allow_const and r < 0.16:
-            return self.num(cplx), 1
-        if allow_const and r < 0.30:
-            k = nv if (nv > 1 or rng.random() < 0.5) else rng.choice([2, 3])
-            return self.vec(k, cplx), k
-        if allow_const and r < 0.38:
-            k = nv if (nv > 1 or rng.random() < 0.6) else rng.choice([2, 3])
-            return self.arr(k, cplx), k
-        k = nv if rng.random() < 0.65 else 1
-        if nv == 1 and rng.random() < 0.4:
-            k = rng.choice([2, 3, 4])
-        return self.fexpr(depth - 1, k, real_only), k
+        vec_ok = k == self_nv or self_nv == 1
+        if k == 1 and allow_num and r < 0.3:
+            return self.num(cplx)
+        if vec_ok and r < 0.42 and not (k == 1 and self_nv != 1):
+            return self.vec(k, cplx)
+        if vec_ok and r < 0.52 and not (k == 1 and self_nv != 1):
+            return self.arr(k, cplx)
+        return self.fexpr(depth - 1, k, real_only)
 
     def fexpr(self, depth, nv, real_only=False):
         """a field-valued expression with nv components"""
@@ -586,14 +580,10 @@ class Gen:
             k = rng.choice([1, 2, 3, 4])
             if rng.random() < 0.7:
                 a = self.fexpr(depth - 1, k, real_only)
-                b, kb = self.operand(k, depth, real_only)
-                if is_const(b) and (b[0] == "num" or kb != k):
-                    b = self.vec(k, False)
-                if not is_const(b) and kb != k:
-                    b = self.fexpr(depth - 1, k, real_only)
+                b = self.operand(k, k, depth, real_only, allow_num=False)
                 if is_const(b) and b[0] == "vec" and not b[1] and rng.random() < 0.3:
                     return ["bin", "dot", "op", b, a]       # tuple @ field -> __rmatmul__
-                return ["bin", "dot", rng.choice(["m", "op"]), a, b]
+                return ["bin", "dot", rng.choice(["m", "op"]) if not is_const(b) else "m", a, b]
             k = rng.choice([2, 3])
             a = self.fexpr(max(0, depth - 2), k, True)
             b = self.vec(k, False) if rng.random() < 0.5 else self.fexpr(0, k, True)
@@ -624,25 +614,23 @@ class Gen:
             if rng.random() < 0.25:
                 return ["bin", "uf2", "power", a, ex]
             return ["bin", "pow", None, a, ex]
-        ka = nv if rng.random() < 0.7 else 1
+        shape = rng.choice(["vv", "vv", "vs", "sv"]) if nv > 1 else "ss"
+        ka = 1 if shape in ("sv", "ss") else nv
+        kb = 1 if shape in ("vs", "ss") else nv
         a = self.fexpr(depth - 1, ka, real_only)
-        b, kb = self.operand(nv if ka == 1 else ka, depth, real_only)
-        if ka == 1 and kb == 1 and nv != 1:
-            b = self.fexpr(depth - 1, nv, real_only) if rng.random() < 0.5 else self.vec(nv, False)
-        if ka == nv and kb not in (1, nv):
-            b = self.num()
+        b = self.operand(kb, ka, depth, real_only)
         spell = rng.random()
         if spell < 0.2:
             name = {"add": "add", "sub": "subtract", "mul": "multiply", "div": "divide"}[op]
             if is_const(b) and b[0] in ("vec",) and not b[1]:
                 b[1] = True      # tuples are not accepted by the ufunc protocol: use an ndarray
-            if is_const(b) and b[0] == "vec" and len(b[2]) == 1:
-                b = self.num()
             return ["bin", "uf2", name, a, b] if rng.random() < 0.6 else ["bin", "uf2", name, b, a]
         if spell < 0.26 and real_only is not None:
             name = rng.choice(sorted(BIN_IDS))
             a = self.fexpr(min(depth - 1, 1), ka, True)
-            b2 = self.fexpr(0, nv if ka == 1 else ka, True) if rng.random() < 0.6 else ["num", True, rnum(rng, self.regime)]
+            b2 = self.fexpr(0, kb, True) if rng.random() < 0.6 else ["num", True, rnum(rng, self.regime)]
+            if is_const(b2) and ka != nv:
+                b2 = self.fexpr(0, kb, True)
             return ["bin", "uf2", name, a, b2]
         if is_const(b) and rng.random() < 0.45:
             return ["bin", op, None, b, a]        # reflected operator / ufunc protocol for numpy operands
@@ -741,6 +729,14 @@ def shifted_mesh(m, how, rng):
     elif how == "dims":
         nd = len(p1)
         dims = ["u", "v", "w", "o"][:nd]
+    elif how == "n":
+        ax = rng.randrange(len(n))
+        n[ax] += 1
+    elif how == "ndim":
+        p1, p2, n = p1 + [F(0)], p2 + [F(1)], n + [1]
+        dims = None if dims is None or len(p1) > 3 else None
+        if len(p1) > 3:
+            dims = [f"d{i}" for i in range(len(p1))]
     return dict(p1=[g.qs(F(float(x))) for x in p1], p2=[g.qs(F(float(x))) for x in p2], n=n, dims=dims)
 
 
@@ -748,7 +744,7 @@ def reject_case(rng, tier):
     """binary operations whose operands live on two meshes / have incompatible component counts"""
     regime = "exact"
     m0 = gen_mesh(rng, tier)
-    how = rng.choice(["equal", "near", "off", "far", "scaled", "dims", "nvdim", "nvdim"])
+    how = rng.choice(["equal", "near", "off", "far", "scaled", "dims", "n", "ndim", "nvdim", "nvdim"])
     meshes = [m0, shifted_mesh(m0, how if how != "nvdim" else "equal", rng)]
     gen = Gen(rng, tier, regime, meshes, allow_cplx=False)
     op = rng.choice(["add", "sub", "mul", "div", "dot", "cross", "angle", "stack", "uf2", "uf2"])
@@ -784,7 +780,7 @@ def reject_case(rng, tier):
         compat = ka == kb
     expect = "accept" if (same and compat) else ("free" if same is None else "reject")
     return dict(kind="reject", regime=regime, meshes=meshes, fields=gen.fields, expr=e, expect=expect,
-                how=how, nv=[ka, kb], clearly_different=how in ("off", "far", "scaled", "dims"),
+                how=how, nv=[ka, kb], clearly_different=how in ("off", "far", "scaled", "dims", "n", "ndim"),
                 incompatible=not compat)
 
 
@@ -846,7 +842,7 @@ def run_case(c):
     leaves = [build_field(fd, meshes) for fd in c["fields"]]
     n = [int(k) for k in meshes[0].n]
     e = c["expr"]
-    size = sum(len(fd["vals"]) for fd in c["fields"]) + len(js(e).__repr__()) // 20
+    size = sum(len(fd["vals"]) for fd in c["fields"]) + 5 * len(repr(e).split("["))
     before = [snapshot(f) for f in leaves]
     st, r = attempt(lambda: ev_impl(e, leaves, n))
     after = [snapshot(f) for f in leaves]
@@ -869,7 +865,7 @@ def run_case(c):
     expect = c.get("expect", "free")
     leaf_obs = [field_obs(f, meshes) for f in leaves]
     obs = dict(status=st, err=None if st == "ok" else r)
-    key = f'{c["kind"]}/{st}/{js(e).__repr__()[:0]}{shape_key(e, c)}'
+    key = f'{c["kind"]}/{st}/{shape_key(e, c)}'
     if ref_err == "nonfinite":
         # division by zero / overflow somewhere: only the operand snapshot clause applies
         rec.update(obs=obs, coq=None, key=key + "/nonfinite", size=size, nontrivial=False)
